@@ -1031,6 +1031,7 @@ func init() {
 		return &Check{ID: "C18", Scenarios: []Scenario{
 			{Name: "members-direct", Count: n, Run: c18Direct},
 			{Name: "members-programs", Count: func(tier string) int { return 2 * n(tier) }, Run: c18Prog},
+			{Name: "members-results-are-fresh", Count: func(tier string) int { return 2 * n(tier) }, Run: c18Fresh},
 		}}
 	})
 }
